@@ -578,9 +578,15 @@ class Interp:
         v = node.value
         if isinstance(v, ast.Constant):
             return
-        # logger calls are dropped by the extraction (DESIGN §3)
+        # logger calls have no effect (A7), but their arguments are evaluated for the exceptions they can raise
+        # (e.g. a KeyError from a table lookup inside the call); an argument outside the subset is skipped
         if isinstance(v, ast.Call) and isinstance(v.func, ast.Attribute) and isinstance(v.func.value, ast.Name) \
                 and v.func.value.id in ("logger", "logging", "log"):
+            for a in list(v.args) + [k.value for k in v.keywords]:
+                try:
+                    self.eval(a, fr)
+                except Unsupported:
+                    pass
             return
         self.eval(v, fr)
 
@@ -979,6 +985,8 @@ class Interp:
             if isinstance(a, (int, float)) and isinstance(b, (int, float)):
                 return V._native_binop(op, a, b)
             if is_sym(a) or is_sym(b):
+                if op in ("+", "-", "*", "/"):
+                    return Opaque("float")       # value not reasoned about (floats are opaque)
                 raise Unsupported("float arithmetic with symbolic int")
         if is_intlike(a) and is_intlike(b):
             return binop(op, a, b)
@@ -1206,6 +1214,12 @@ class Interp:
             if fr.defcls is None or fr.self_obj is None:
                 raise Unsupported("super() outside method")
             return SuperVal(fr.defcls, fr.self_obj)
+        if isinstance(f, ast.Name) and f.id == "super" and len(node.args) == 2 and "super" not in fr.locals:
+            c = self.eval(node.args[0], fr)
+            o = self.eval(node.args[1], fr)
+            if not isinstance(c, ClassVal) or not isinstance(o, (SObj, RealObj)):
+                raise Unsupported("super(x, y) with unusual arguments")
+            return SuperVal(c.cls, o)
         fn = self.eval(f, fr)
         args = []
         for a in node.args:
